@@ -14,13 +14,16 @@ THEOREMS = [
     "C16_maps_length",
     "C16_maps_combinations",
     "C16_maps_order",
+    "C16_maps_row",
+    "C16_maps_in_range",
     "C16_maps_of_spec",
-    "C16_maps_errors",
+    "C16_maps_refusals",
     "C16_maps_zero_fallthrough",
     "C16_table",
     "C16_history",
     "C16_rebuild",
     "C16_rerun",
+    "C16_child_count",
 ]
 RULE = (
     "real for-nodes made by for_node / Cls.for_node / node.iter / node.zip over three importable term-building "
@@ -108,6 +111,51 @@ class _Idle:
         self.points += 1
         k = self.sched.pop(0) if self.sched else 0
         self.ctl.complete(k % len(self.ctl.jobs))
+
+
+# ----------------------------------------------------------------------------- cache policy of the library
+
+_POLICY = None
+
+
+def cache_policy():
+    """
+    What `Node._before_run` does with its input cache on refused / failed runs is C05's subject and
+    differs between the pinned tree and its repairs. It is *observed* here on plain function nodes
+    (behaviour only, no private attribute) and handed to the model as configuration; the C16
+    theorems hold for every value.
+      gate  : a refused run (missing input) repeated with the same inputs is refused again
+              (False: the second call is a silent cache hit)
+      clear : a failed run repeated with the same inputs (after clearing `failed`) runs again
+              (False: the second call is a silent cache hit)
+    """
+    global _POLICY
+    if _POLICY is None:
+        from . import nodes_c16
+
+        n = nodes_c16.B3(a="x", b="y")
+        gate = None
+        try:
+            n.run()
+        except Exception:  # noqa: BLE001
+            try:
+                n.run()
+                gate = False
+            except Exception:  # noqa: BLE001
+                gate = True
+        b = nodes_c16.Boom(x="x")
+        clear = None
+        try:
+            b.run()
+        except Exception:  # noqa: BLE001
+            b.failed = False
+            try:
+                b.run()
+                clear = False
+            except Exception:  # noqa: BLE001
+                clear = True
+        _POLICY = {"gate": bool(gate), "clear": bool(clear), "probe_ok": gate is not None and clear is not None}
+    return _POLICY
 
 
 # ----------------------------------------------------------------------------- terms
@@ -241,7 +289,7 @@ def _lehmer_all(n):
 def gen_cases(rng, tier):
     quick = tier == "quick"
     # 1. structured random for-node cases
-    n_rand = 260 if quick else 2600
+    n_rand = 1800 if quick else 16000
     bodies = ["B4", "B4", "B3", "BC"]
     for _ in range(n_rand):
         body = rng.choice(bodies)
@@ -277,7 +325,7 @@ def gen_cases(rng, tier):
                 if quick and rng.random() < 0.5:
                     continue
                 cms = [c for c in _colmaps(body, iter_on, zip_on) if _columns_distinct(body, iter_on, zip_on, c)]
-                reps = 1 if quick else 3
+                reps = 1 if quick else 4
                 for _ in range(reps):
                     lens_seq = [{k: rng.randint(1, 3 if quick else 4) for k in iter_on + zip_on} for _ in range(2)]
                     yield _mk_case(rng, body, roles, form_df, rng.choice(cms), True, "for_node",
@@ -292,7 +340,7 @@ def gen_cases(rng, tier):
         allv = [dict(zip(looped, v)) for v in itertools.product(range(1, hi + 1), repeat=len(looped))]
         rng.shuffle(allv)
         if quick:
-            allv = allv[:12]
+            allv = allv[:16]
         for i in range(0, len(allv), 4):
             yield _mk_case(rng, body, tuple(roles), rng.random() < 0.5, None, True, "for_node", False,
                            allv[i:i + 4])
@@ -308,7 +356,7 @@ def gen_cases(rng, tier):
         n = _n_rows(iter_on, zip_on, lens)
         orders = _lehmer_all(n)
         if quick:
-            orders = rng.sample(orders, min(6, len(orders)))
+            orders = rng.sample(orders, min(10, len(orders)))
         for o in orders:
             for form_df in ((True, False) if not quick else (rng.random() < 0.5,)):
                 # second run with other lengths and the reversed kind of order
@@ -317,7 +365,7 @@ def gen_cases(rng, tier):
                                [lens, lens2], scheds=[list(o), [len(o) - 1 - x for x in o]])
 
     # 5. the convenience entry points node.iter / node.zip
-    for _ in range(20 if quick else 150):
+    for _ in range(60 if quick else 600):
         body = rng.choice(["B4", "B3"])
         inputs = BODIES[body]["inputs"]
         style = rng.choice(["iter", "zip"])
@@ -338,7 +386,7 @@ def gen_cases(rng, tier):
 
     # 6. dictionary_to_index_maps directly
     keys = ["a", "b", "c", "x"]
-    for _ in range(150 if quick else 2500):
+    for _ in range(400 if quick else 6000):
         data = {}
         for k in keys[:3]:
             r = rng.random()
@@ -468,6 +516,7 @@ def _run_for(case):
 
     from . import nodes_c16
 
+    policy = dict(cache_policy())
     nodes_c16.reset()
     spec = BODIES[case["body"]]
     Body = getattr(nodes_c16, case["body"])
@@ -565,7 +614,8 @@ def _run_for(case):
         composite.sleep = old_sleep
     if ctl is not None:
         stats["max_outstanding:" + str(min(ctl.max_outstanding, 9))] = 1
-    return {"obs": obs, "runs": runs_out, "stats": stats}
+    stats[f"policy:gate={policy['gate']},clear={policy['clear']}"] = 1
+    return {"obs": obs, "runs": runs_out, "stats": stats, "policy": policy}
 
 
 def _run_maps(case):
@@ -636,6 +686,9 @@ def model_input(case, impl=None):
     lines.append("zip " + " ".join(case["zip"]))
     lines.append("form " + ("df" if case["df"] else "lists"))
     lines.append("cache " + ("on" if case["use_cache"] else "off"))
+    policy = (impl or {}).get("policy") or {"gate": False, "clear": False}
+    lines.append("gatecache " + ("on" if policy["gate"] else "off"))
+    lines.append("clearonfail " + ("on" if policy["clear"] else "off"))
     lines.append("begin")
     looped = set(case["iter"]) | set(case["zip"])
 
